@@ -15,6 +15,8 @@ for f in sorted(glob.glob(os.path.join(HERE, "seeded", "*", "meta.json"))):
         sigs = sorted({re.search(r"sig=(\S+)", l).group(1) for l in v.get("first_violations", []) if "sig=" in l})
         chk.append("%s %s: %s%s" % (c, v.get("tier", ""), "DETECTED" if v.get("detected") else "missed",
                                      (" (" + ", ".join(s[:70] for s in sigs[:2]) + ")") if sigs else ""))
+    for c, t in m.get("checks_after_strengthening", {}).items():
+        chk.append("after strengthening, %s: %s" % (c, t))
     rows.append("| %s | %s | %s | %s | %s | %s |" % (m["seed"], m["property"], ", ".join(m.get("files_changed", [])), what,
                                                    "pass" if m.get("repo_tests", {}).get("passed_with_change") else "FAIL",
                                                    "; ".join(chk)))
